@@ -1110,6 +1110,7 @@ Definition fn_format (v x : jv) : nres :=
 
 Definition unsupported (why : string) : jv -> nres := fun _ => skip why.
 
+Open Scope string_scope.
 Definition natives0 : list (string * (jv -> nres)) :=
   [ ("length", fn_length); ("utf8bytelength", fn_utf8bytelength); ("keys", fn_keys); ("add", fn_add);
     ("abs", fn_abs); ("toboolean", fn_toboolean); ("tonumber", fn_tonumber); ("tostring", fn_tostring);
@@ -1170,6 +1171,8 @@ Definition declined : list (string * nat) :=
     ("gmtime", 0); ("localtime", 0); ("mktime", 0); ("strftime", 1); ("strflocaltime", 1); ("strptime", 1); ("now", 0);
     ("_match", 3); ("_captures", 0); ("builtins", 0); ("modulemeta", 0); ("debug", 1); ("env", 0);
     ("halt_error", 1) ].
+
+Close Scope string_scope.
 
 Fixpoint assoc_str {A} (l : list (string * A)) (name : bytes) : option A :=
   match l with
